@@ -182,6 +182,25 @@ def rule_precedence(ctx, r):
             continue
         sites = [n for f in idx.functions.values() if f.module.name != CONF for n in ast.walk(f.node) if isinstance(n, ast.Constant) and n.value == key
                  and "config" in ast.unparse(getattr(n, "_parent", n))]
+        if not sites:
+            # the key may be named by a module constant: config.get(USE_SPEC_HASHES_SETTING)
+            for f in idx.functions.values():
+                if f.module.name == CONF:
+                    continue
+                for c in _calls(f.node):
+                    if isinstance(c.func, ast.Attribute) and c.func.attr in ("get", "__getitem__") and "config" in ast.unparse(c.func.value) and c.args:
+                        try:
+                            if ctx.ev.eval(c.args[0], f.module) == key:
+                                sites.append(c)
+                        except Exception:
+                            pass
+                for n in ast.walk(f.node):
+                    if isinstance(n, ast.Subscript) and "config" in ast.unparse(n.value):
+                        try:
+                            if ctx.ev.eval(n.slice, f.module) == key:
+                                sites.append(n)
+                        except Exception:
+                            pass
         r.check(bool(sites), f"src/gwf/conf.py::CONFIG_DEFAULTS::{key}", f"read at {len(sites)} site(s)", f"the documented setting `{key}` is never read: it can have no effect", "src/gwf/conf.py:1")
 
 
